@@ -197,17 +197,16 @@ structure Slot where
 def two32 : Nat := 4294967296
 
 /-- the slot loop of `Parse`: `off` is the byte offset of the slot being read,
-    `limit` = `int64(NPages*pageSz)` (a uint32 product).  `none` = error. -/
-def slots (file : Bytes) (limit lastIndex : Nat) (off : Nat) (acc : List Slot) : Option (List Slot) :=
+    `limit` = `int64(NPages*pageSz)` (a uint32 product).  Every slot of the slot
+    pages is read (857f8c86: no early stop at the highest index).  `none` = error. -/
+def slots (file : Bytes) (limit : Nat) (off : Nat) (acc : List Slot) : Option (List Slot) :=
   if off ≥ limit then some acc.reverse
   else if hrd : off + 16 > file.length then none        -- ReadAt of the slot fails
   else if le32 file off != magicSlot then none
-  else if le32 file (off + 8) == 0 then slots file limit lastIndex (off + 16) acc   -- errSkipSlot
+  else if le32 file (off + 8) == 0 then slots file limit (off + 16) acc   -- errSkipSlot
   else if le32 file (off + 12) < 2 then none            -- nonsense block count
   else
-    let s : Slot := ⟨le32 file (off + 4), le32 file (off + 8), le32 file (off + 12)⟩
-    if s.index == lastIndex then some (s :: acc).reverse
-    else slots file limit lastIndex (off + 16) (s :: acc)
+    slots file limit (off + 16) (⟨le32 file (off + 4), le32 file (off + 8), le32 file (off + 12)⟩ :: acc)
 termination_by file.length - off
 decreasing_by all_goals omega
 
@@ -218,8 +217,7 @@ def parse (file : Bytes) : Option (List Slot) :=
   else if le32 file 4 != 0 then none
   else
     let nPages := le32 file 12
-    let nextIdx := le32 file 16
-    slots file ((nPages * 4096) % two32) ((nextIdx + two32 - 1) % two32) 32 []
+    slots file ((nPages * 4096) % two32) 32 []
 
 def adlerLoop : Bytes → Nat → Nat → Nat
   | [], a, b => b * 65536 + a
